@@ -114,6 +114,36 @@ def ev(t, env):
                 return ev(args[1], env) if o[1] is None else o[1]
         if nm in ("from", "into", "clone") and len(args) == 1:
             return ev(args[0], env)
+        if nm in ("ilog2", "checked_ilog2", "leading_zeros", "trailing_zeros", "count_ones", "count_zeros", "is_power_of_two", "next_power_of_two") and len(args) == 1 and t[1].startswith("core::num"):
+            a = ev(args[0], env)
+            if isinstance(a, int):
+                if nm == "ilog2":
+                    if a <= 0:
+                        raise Overflow("ilog2 of zero")
+                    return a.bit_length() - 1
+                if nm == "checked_ilog2":
+                    return ("opt", a.bit_length() - 1 if a > 0 else None)
+                if nm == "leading_zeros":
+                    return 64 - a.bit_length()
+                if nm == "trailing_zeros":
+                    return 64 if a == 0 else (a & -a).bit_length() - 1
+                if nm == "count_ones":
+                    return bin(a).count("1")
+                if nm == "count_zeros":
+                    return 64 - bin(a).count("1")
+                if nm == "is_power_of_two":
+                    return a > 0 and (a & (a - 1)) == 0
+                if nm == "next_power_of_two":
+                    return 1 if a <= 1 else 1 << (a - 1).bit_length()
+        if nm in ("pow", "checked_pow") and len(args) == 2 and t[1].startswith("core::num"):
+            a, b = ev(args[0], env), ev(args[1], env)
+            if isinstance(a, int) and isinstance(b, int) and b < 200:
+                v = a ** b
+                if nm == "pow":
+                    if v >= U64:
+                        raise Overflow("pow")
+                    return v
+                return ("opt", v if v < U64 else None)
         if nm in ("saturating_add", "saturating_mul", "wrapping_add", "wrapping_mul") and len(args) == 2 and t[1].startswith("core::num"):
             a, b = ev(args[0], env), ev(args[1], env)
             if isinstance(a, int) and isinstance(b, int):
